@@ -43,6 +43,9 @@ func VerifC09_ConcWriteSnapshot()   { verifC09Concurrent(1) }
 func VerifC09_ConcWriteDelete()     { verifC09Concurrent(2) }
 func VerifC09_ConcWritersSnapshot() { verifC09Concurrent(3) }
 
+// a key that already holds a point is range-deleted while another point is written to it
+func VerifC09_ConcWriteDeleteExisting() { verifC09Concurrent(4) }
+
 // VerifC09_ConcTypeConflict: two writers race on a new key with different value types (and each also
 // writes an integer to its own second key): exactly one of them is refused, for that key only; the key
 // holds the other's value; the sizes account for exactly what is held.
@@ -166,6 +169,21 @@ func verifC09Concurrent(scen int) {
 		dk = vrt.Choose("dkey", 0, 1)
 		dmin, dmax = vrt.Int64("dmin"), vrt.Int64("dmax")
 		vrt.Go(writer(ws[0]))
+		vrt.Go(deleter)
+	case 4:
+		// p0 was written before; the delete is aimed at its key
+		w0 := newWr(0)
+		ws = append(ws, w0)
+		emu.RLock()
+		w0.err = c.WriteMulti(map[string][]Value{keys[w0.k]: {NewIntegerValue(w0.t, w0.v)}})
+		emu.RUnlock()
+		w0.done = true
+		w1 := newWr(1)
+		vrt.Assume(vrt.Or(w0.k != w1.k, w0.t != w1.t))
+		ws = append(ws, w1)
+		dk = w0.k
+		dmin, dmax = vrt.Int64("dmin"), vrt.Int64("dmax")
+		vrt.Go(writer(w1))
 		vrt.Go(deleter)
 	case 3:
 		ws = append(ws, newWr(0), newWr(1))
